@@ -171,7 +171,10 @@ pub struct MonIter<'a, 'g, K: Kmer, D: Debug + Clone> {
 }
 
 impl<'a, 'g, K: Kmer, D: Debug + Clone> MonIter<'a, 'g, K, D> {
-    fn check(&mut self, what: &str, skip: usize, got: Option<K>) {
+    /// Checks the answer; returns what is handed on to the consumer. Past the node's last k-mer
+    /// that is always `None` (fail-stop): an endless stream is recorded as an error once and must
+    /// not keep the real consumer running - or allocating - for ever.
+    fn check(&mut self, what: &str, skip: usize, got: Option<K>) -> Option<K> {
         let model = &self.mon.models[self.id];
         let target = self.pos.saturating_add(skip);
         let want = if target < model.len() { Some(model[target]) } else { None };
@@ -197,6 +200,11 @@ impl<'a, 'g, K: Kmer, D: Debug + Clone> MonIter<'a, 'g, K, D> {
                 ),
             );
         }
+        if want.is_none() {
+            None
+        } else {
+            got
+        }
     }
 }
 
@@ -205,8 +213,7 @@ impl<'a, 'g, K: Kmer, D: Debug + Clone> Iterator for MonIter<'a, 'g, K, D> {
     fn next(&mut self) -> Option<K> {
         self.mon.calls_next.fetch_add(1, Ordering::Relaxed);
         let got = self.inner.next();
-        self.check("next()", 0, got);
-        got
+        self.check("next()", 0, got)
     }
     fn nth(&mut self, n: usize) -> Option<K> {
         if n <= 4 {
@@ -216,8 +223,7 @@ impl<'a, 'g, K: Kmer, D: Debug + Clone> Iterator for MonIter<'a, 'g, K, D> {
         }
         self.mon.max_skip.fetch_max(n as u64, Ordering::Relaxed);
         let got = self.inner.nth(n);
-        self.check("nth(n)", n, got);
-        got
+        self.check("nth(n)", n, got)
     }
     fn size_hint(&self) -> (usize, Option<usize>) {
         // the statement only promises the count "up front"; report what was promised then
